@@ -99,6 +99,13 @@ def check_indent(text, syntax, o, out, rec, shape=''):
     lineno = 0
     depth = 0
     ei = 0
+    # lines are delimited by ANY line break; each break must be the configured newline string
+    pieces = re.split(r'(\r\n|\r|\n)', out)
+    for sep in pieces[1::2]:
+        if sep != nl:
+            rec.fail('indentation-law:foreign-line-break' + shape, 'abbr %r syntax %s options %r\n the output contains the line break %r, configured output.newline is %r\n output %r' % (
+                text, syntax, o, sep, nl, core.short(out, 400)))
+            return
     for line in out.split(nl):
         start = pos
         pos += len(line) + len(nl)
